@@ -1,11 +1,28 @@
 use c05::api::{self, CaseA, CompSpec, Op, Terminal};
 use c05::forms::{self, CaseB};
+use c05::rec::FilterSpec;
 use vcore::proptest::prelude::*;
 
-const RULE: &str = "Domain A (api-sequences): a SpanGuard built by SpanGuard::new with a generated filter verdict is held at one fixed erased type and driven by a generated sequence of 0..=10 operations (with_mdl, with_name, with_props, map_props append/prepend, with_completion(k) with custom or emit's default completion, start) followed by a terminal (complete, complete_with(k), drop, drop while unwinding), inside or outside its frame, over a scripted clock (one entry per now() call: small/large/backwards/repeated/unavailable readings) and a counter or unavailable rng. Domain B (macro-forms): 15 fixed call sites compiled with the real macros (span/debug_/info_/warn_/error_span on sync and async fns, guard parameter, ok_lvl/err_lvl/err/panic_lvl, mdl, new_info_span!) against an explicit runtime, with generated verdict, clock, rng and exit path (fallthrough, early return, return Err, ? on Err, tail Err, panic, cancelled future, explicit complete/complete_with/with_completion/rename/early drop/complete-then-panic through the guard, new_span with 0/1/2 starts). Non-trivial = (A) at least 2 builder operations including a with_completion, or a span rejected by the filter, or start called more than once, or drop during unwinding; (B) a rejected span or any exit path other than plain fallthrough.";
+const RULE: &str = "Domain A (api-sequences): a SpanGuard built by SpanGuard::new with a GENERATED FILTER (accept-all, reject-all, min-level L, accepts-only-events-without-extent, accepts-only-the-first-n-evaluations, rejects-events-carrying-err, keyed on the template text) is held at one fixed erased type and driven by a generated sequence of 0..=10 operations (with_mdl, with_name, with_props, map_props append/prepend, with_completion(k), start) followed by a terminal (complete, complete_with(k), drop, drop while unwinding), inside or outside its frame, over a scripted clock (one entry per now() call: small/large/backwards/repeated/unavailable readings) and a counter or unavailable rng; a completion k is a recording custom completion, emit's completion::Default, or the Result-aware Ok/Err completions the span macros hand to complete_with, over an explicit runtime whose filter is the case's filter. Domain B (macro-forms): 19 fixed call sites compiled with the real macros (span/debug_/info_/warn_/error_span on sync and async fns, guard parameter, ok_lvl/err_lvl/err/panic_lvl, mdl, new_info_span!, and four sites with a call-site when: filter) against an explicit runtime, with generated runtime filter and when: filter (same kinds as above), clock, rng and exit path (fallthrough, early return, return Err, ? on Err, tail Err, panic, cancelled future, explicit complete/complete_with/with_completion/rename/early drop/complete-then-panic through the guard, new_span with 0/1/2 starts). 'Passed the filter' is decided by the deciding filter's verdict on the span's START event only. Non-trivial = (A) at least 2 builder operations including a with_completion, or a span rejected by the filter, or start called more than once, or drop during unwinding; (B) a rejected span or any exit path other than plain fallthrough.";
 
 fn comp_spec() -> impl Strategy<Value = CompSpec> {
-    (any::<bool>(), prop::option::of(0u8..4), prop::option::of(0u8..4)).prop_map(|(default, lvl, panic_lvl)| CompSpec { default, lvl, panic_lvl })
+    // 0 custom, 1 emit's default completion, 2 / 3 the macros' Ok / Err completions over the case's runtime
+    let kind = prop_oneof![3 => Just(0u8), 3 => Just(1u8), 1 => Just(2u8), 1 => Just(3u8)];
+    (kind, prop::option::of(0u8..4), prop::option::of(0u8..4)).prop_map(|(kind, lvl, panic_lvl)| CompSpec { kind, lvl, panic_lvl })
+}
+
+/// `p_reject`-ish mix: constant filters plus filters whose verdict depends on what distinguishes a span's
+/// start event from its completion event (level, extent, err, template) or on the evaluation count.
+fn filter_spec() -> impl Strategy<Value = FilterSpec> {
+    prop_oneof![
+        6 => Just(FilterSpec::AcceptAll),
+        3 => Just(FilterSpec::RejectAll),
+        3 => (0u8..4).prop_map(FilterSpec::MinLevel),
+        2 => Just(FilterSpec::NoExtentOnly),
+        2 => (0u8..4).prop_map(FilterSpec::FirstN),
+        1 => Just(FilterSpec::NoErr),
+        3 => (0u8..6, any::<bool>()).prop_map(|(n, a)| FilterSpec::Tpl(n, a)),
+    ]
 }
 
 fn props_spec() -> impl Strategy<Value = Vec<(u8, i8)>> {
@@ -46,14 +63,14 @@ fn case_a() -> impl Strategy<Value = CaseA> {
         2 => Just(Terminal::PanicDrop),
     ];
     (
-        (prop::bool::weighted(0.65), prop::bool::weighted(0.8), prop::bool::weighted(0.85), any::<u32>()),
+        (filter_spec(), prop::bool::weighted(0.8), prop::bool::weighted(0.85), any::<u32>()),
         clock_script(),
         (comp_spec(), 0u8..6, 0u8..5, props_spec()),
         prop::collection::vec(op, 0..=10),
         terminal,
     )
-        .prop_map(|((verdict, inside_frame, rng_avail, rng_seed), clock, (init_comp, init_name, init_mdl, init_props), ops, terminal)| CaseA {
-            verdict,
+        .prop_map(|((filter, inside_frame, rng_avail, rng_seed), clock, (init_comp, init_name, init_mdl, init_props), ops, terminal)| CaseA {
+            filter,
             inside_frame,
             rng_avail,
             rng_seed,
@@ -71,19 +88,19 @@ fn case_b() -> impl Strategy<Value = CaseB> {
     (
         0u8..forms::SITES.len() as u8,
         any::<u32>(),
-        prop::bool::weighted(0.7),
+        (filter_spec(), filter_spec()),
         prop::bool::weighted(0.85),
         any::<u32>(),
         clock_script(),
         any::<i32>(),
     )
-        .prop_map(|(site, exit, verdict, rng_avail, rng_seed, clock, x)| CaseB { site, exit, verdict, rng_avail, rng_seed, clock, x })
+        .prop_map(|(site, exit, (filter, when), rng_avail, rng_seed, clock, x)| CaseB { site, exit, filter, when, rng_avail, rng_seed, clock, x })
 }
 
 fn d2_probe(terminal: Terminal) -> CaseA {
-    let plain = CompSpec { default: false, lvl: None, panic_lvl: None };
+    let plain = CompSpec { kind: 0, lvl: None, panic_lvl: None };
     CaseA {
-        verdict: false,
+        filter: FilterSpec::RejectAll,
         inside_frame: true,
         rng_avail: true,
         rng_seed: 1,
@@ -108,6 +125,7 @@ fn main() {
             "levels follow the macro docs and the repository's ui tests: ok -> ok_lvl, else the macro's own level, else none; Err -> err_lvl, else the macro's own level, else error, with err attached; panic -> panic_lvl, else error, with err attached; everything else -> the macro's own level or none",
             "ids: inside its frame the ambient context (and therefore the emitted span event) carries exactly the trace/span id the span was created with (as shown to the filter); spans completed outside their frame (guard run outside frame.call, cancelled futures) are don't-care for ids",
             "whether err is attached when a plain span (no ok_lvl/err_lvl/err) wraps a function returning Err is don't-care",
+            "a span is enabled iff the deciding filter (the call-site when: filter if the site has one, else the runtime's filter; the filter given to SpanGuard::new in domain A) accepts the span's START event: the macro's own level (none in domain A), no extent, no err, template \"{span_name} started\"; what any filter would say about the COMPLETION event (its level, extent, err, template, or a later evaluation count) is irrelevant: the completion must arrive exactly once. Consulting a filter again is not itself a violation; a completion that is missing after a filter rejected a later evaluation is reported as completion-filtered-again",
             "attribute macros on block expressions need unstable rustc features (stmt_expr_attributes / proc_macro_hygiene) and cannot be compiled by the stable toolchain this harness uses; block forms are therefore not among the call sites (they share inject_sync/inject_async with the fn forms)",
         ],
         |s| {
@@ -123,6 +141,16 @@ fn main() {
             s.require("B:question-mark", 300);
             s.require("B:cancelled-future", 300);
             s.require("B:guard-param", 1000);
+            // the filter's verdict on the COMPLETION event would differ from its verdict on the start event
+            s.require("differ:ok-exit", 200);
+            s.require("differ:err-exit", 300);
+            s.require("differ:drop", 2000);
+            s.require("differ:panic", 1500);
+            s.require("differ:complete", 1000);
+            s.require("differ:complete_with", 1000);
+            s.require("differ:A-through-result-hook", 1000);
+            s.require("B:when-accepts-over-rejecting-runtime-filter", 400);
+            s.require("B:when-rejects-over-accepting-runtime-filter", 400);
             // a fixed probe for the class of defect D2 (with_completion on a filtered-out guard), so that
             // the strongest manifestation (an actual completion) is shown whatever the shrinker lands on
             s.manual("probe-disabled-with_completion", vec![d2_probe(Terminal::Drop), d2_probe(Terminal::Complete), d2_probe(Terminal::PanicDrop)], api::check_api);
